@@ -2,7 +2,14 @@
 (drivers of C03 / C04 / C05): parameter names <-> the `pname` numbers of coq/Base/PyCall.v, exception
 class codes (coq/Model/PedanticEval.v: exn_code) and receiver object codes (obj_code)."""
 
-PNAMES = ['self', 'cls', 'a', 'b', 'c', 'd', 'e', 'args', 'kwargs', 'xs', 'kw', 'k', 'm', 'n', 'this', 'x', 'y', 'z', 'v']
+PNAMES = ['self', 'cls', 'a', 'b', 'c', 'd', 'e', 'args', 'kwargs', 'xs', 'kw', 'k', 'm', 'n', 'this', 'x', 'y', 'z', 'v',
+          # 19.. : identifiers that the decorators themselves use for their own parameters / locals on the way from the wrapper to
+          # the body (FunctionCall(func=, args=, kwargs=, context=), assert_value_matches_type(value=, type_=, err=, type_vars=,
+          # key=, msg=), pedantic(func=, require_docstring=), GeneratorWrapper(wrapped=, ...)) and a few everyday names: the NAME of
+          # a user's parameter is an input of the call protocol (a keyword of the user travels through **kwargs of every layer)
+          'context', 'decorated_func', 'func', 'call', 'value', 'type_', 'err', 'type_vars', 'key', 'msg', 'f', 'wrapped',
+          'result', 'require_docstring', 'wrapper', 'params', 'signature', 'name', 'instance', 'expected_type']
+VOCAB = list(range(19, len(PNAMES)))          # codes of the names above
 
 
 def pname(code):
